@@ -905,6 +905,12 @@ def check(program, rep):
     # (C07-R4: vcpu_base of the chip + size * p, computed per call)
     from . import C07
     rep.guard("C07-R4", C07.r4_addresses, program, folder, rep)
+    # every flood-fill command is an SCP packet whose argument words are
+    # often zero (region word 0 of the start packet, block 0, app id 0):
+    # each argument that is present - zero included - must be written
+    # (C15-R3: cmd_rc, seq, the arguments present in order, then the data)
+    from . import C15
+    rep.guard("C15-R3", C15.r3_scp, program, folder, rep)
     # arguments handed to package functions under the wrong name / same-
     # named optional parameters not passed on (NAMELINK, DESIGN.md 9.13)
     from .. import namelink as _nl
